@@ -8,6 +8,8 @@
  *   LEN    length of the incoming PDU; the PDU is a heap object of exactly LEN bytes
  *   OUTSZ  size of the output buffer handed to l2cap_input (heap object of exactly OUTSZ bytes, out_size = OUTSZ)
  *   NQ     cfg 2 only: number of elements in the prepared-write queue of the pre-state (0..5)
+ *   CMTU   client MTU of the pre-state; 0 = symbolic (23..65535)
+ *   CMDSYM 1: the command flag of the opcode is symbolic (opcodes without handler only)
  *
  * symbolic: PDU bytes 1..LEN-1, client MTU (>= 23), encryption / pairing state, CCCD bytes, all bound values,
  *           write queue (owner, elements: handle out of the writable ones, offset, size, data, junk behind the end),
@@ -18,6 +20,10 @@
  * offered, so a handler being given a range outside the PDU / buffer fails too).
  */
 #include "vf.h"
+
+#if defined( VF_CBMC ) && !defined( CMDSYM )
+#define CMDSYM 0
+#endif
 
 void     vf_att_input( int cfg, const uint8_t* in, size_t in_size, uint8_t* out, size_t* out_size );
 void     vf_att_set_conn( int cfg, unsigned client_mtu, int encrypted, int pairing, const uint8_t* cccd );
@@ -138,7 +144,8 @@ void harness( void )
     const int    cfg   = (int)CASE( CFG );
     const size_t len   = (size_t)CASE( LEN );
     const size_t outsz = (size_t)CASE( OUTSZ );
-    const uint8_t opc  = (uint8_t)CASE( OPC );
+    /* CMDSYM == 1: the command flag (bit 6) of the opcode is symbolic: the case covers OPC and OPC | 0x40 */
+    const uint8_t opc  = (uint8_t)( CASE( OPC ) | ( CASE( CMDSYM ) ? ( in_bool() ? 0x40 : 0 ) : 0 ) );
 
     /* ---- pre-state */
     const unsigned smax = vf_att_server_mtu( cfg );
